@@ -14,6 +14,7 @@ import (
 	"verif/mc/engines/e3"
 	"verif/mc/engines/e4"
 	"verif/mc/engines/e5"
+	"verif/mc/engines/e6"
 	"verif/mc/hx"
 )
 
@@ -28,6 +29,7 @@ func main() {
 	tier := fs.String("tier", "quick", "quick|thorough")
 	props := fs.String("props", "", "comma separated property ids")
 	replay := fs.String("replay", "", "witness to replay")
+	job := fs.String("job", "", "engine-specific job name")
 	capS := fs.Int("cap", 0, "time cap in seconds (0: none)")
 	fs.Parse(os.Args[2:])
 	sh := hx.ParseShard(*shard)
@@ -104,6 +106,16 @@ func main() {
 			}
 		} else {
 			ctx.Run(*props, *tier)
+		}
+	case "e6":
+		ctx := &e6.Ctx{Rep: rep, Sh: sh, Deadline: deadline, WD: hx.NewWatchdog(rep, 60*time.Second), Props: *props}
+		if *replay != "" {
+			if err := ctx.Replay(*replay); err != nil {
+				fmt.Fprintln(os.Stderr, err)
+				os.Exit(3)
+			}
+		} else {
+			ctx.Run(*job, *tier)
 		}
 	default:
 		fmt.Fprintln(os.Stderr, "unknown engine", eng)
